@@ -137,10 +137,11 @@ def build_pupil_wavefront(case):
     for pl in case["planes"]:
         mask = None if pl["mask"] is None else pl["mask"].copy()
         lay = ["C", "F", "strided", "reversed", "transposed_view"][(shape[0] + 2 * shape[1] + len(case["planes"])) % 5]
-        p = lentil.Pupil(amplitude=gen.relayout(pl["amp"].copy(), lay), opd=gen.relayout(pl["opd"].copy(), lay),
-                         mask=None if mask is None else gen.relayout(mask, lay),
-                         pixelscale=cm.as_ps(case["dx"]), focal_length=pl["f"])
-        p, _variant = cm.derive_obj(p, shape[0] + 3 * shape[1] + int(pl["amp"].size))     # constructed / copy / deepcopy / pickle
+        # constructed / copy / deepcopy / pickle / built in another process
+        p, _variant = cm.build_obj(lentil.Pupil, "lentil.Pupil", shape[0] + 3 * shape[1] + int(pl["amp"].size),
+                                   amplitude=gen.relayout(pl["amp"].copy(), lay), opd=gen.relayout(pl["opd"].copy(), lay),
+                                   mask=None if mask is None else gen.relayout(mask, lay),
+                                   pixelscale=cm.as_ps(case["dx"]), focal_length=pl["f"])
         w = w * p
         model = model * pm.phasor(shape, pl["amp"], pl["opd"], pl["mask"], wl)
         z = pl["f"]
